@@ -14,8 +14,10 @@ PARTIAL = [
     "proved (loops as coded, each transcription compared with the real function by its own stream): A3.2 CurveEvaluator.derivatives (curveDersA32, stream cders32), A3.6 SurfaceEvaluator.derivatives (surfaceDersA36, stream sders36: temp array, dd = min(deriv_order, d[1]) - equals the tensor-formula table, all k <= du, l <= dv filled), A3.7 helpers.surface_deriv_cpts after the fix a380c58 (surfaceDerivCptsA37, stream sdcpts37: exactly which entries of PKL are assigned, their values as v-differences of u-differences, A3.8 reads assigned entries only) and A3.8 SurfaceEvaluator2.derivatives (surfaceDersA38, stream sders38: equals the triangular table) return the true (mixed) derivatives; rational surfaces with the default evaluator as coded solve the Leibniz system of the true derivatives",
     "proved (hodographs; hypotheses of every hodograph theorem = guards of the driver ops: degree >= 2 in each differentiated direction, derivCptsDivisorsOk = no ZeroDivisionError (F-02b for surfaces)): the DATA handed to the setters - derivative_curve (derivativeCurve, stream hodoc: control points PK[1], knot vector U[1:-1], degree p-1) evaluated on the shifted span is the first derivative, also through the library's own span search (the span found on U[1:-1] is the original span minus one); the three surfaces of derivative_surface (derivativeSurface, stream hodos) evaluated on the shifted span pairs and through their own span searches are S_u, S_v, S_uv; the OBJECTS the constructors return (knot vectors after the normalising setter, knotNormalize / surfDataNormalize as the driver prints them): when U[1:-1] spans [0,1] (clamped shape on [0,1], the default) the stored curve / three stored surfaces evaluated at the SAME parameter(s) on the closed domain are the derivatives (hodograph_curve_object_is_first_derivative, hodograph_surface_objects_are_partial_derivatives); for any knot vector they are the derivatives at the affinely mapped parameter (u - U[1]) / (U[-2] - U[1]) (hodograph_*_reparametrised) - at the same parameter they are NOT (finding F-02c, in-file example on an unclamped knot vector)",
     "proved (through the span search, closed domain, what the ops cders32 / sders36 / tanc / tans / nrms run): A3.2 and A3.6 as coded on the span(s) find_span_linear returns; rational curves and surfaces with the default evaluator as coded (A3.2 / A3.6 on the homogeneous net, then A4.2 / A4.4) solve the Leibniz system of the true derivatives with positive weight polynomial; tangent of a non-rational curve / surface = (point, first derivative(s)), tangent of a rational CURVE = (A/w, quotient rule), normal of a non-rational 3-D surface = cross product of the TRUE first partial derivatives (streams tanc / tans / nrms, single and list variants); the values of every PKL entry A3.7 assigns (a37_as_coded_entry_values)",
-    "not proved: that the quotient A/w of two polynomials has the derivatives returned by A4.2/A4.4 is stated through the Leibniz system and its uniqueness, not through a derivative of rational functions; tangent / normal of a RATIONAL SURFACE have no theorem of their own (their vectors are entries [0][0], [1][0], [0][1] of the table characterised by rational_surface_derivatives_as_coded_on_domain); normalize=True variants: only the model of vector_normalize; A3.6 and A3.8 agree only on k + l <= order (the rest of the A3.8 table is zero)",
-    "tangent / normal: orthogonality of the cross product to both first-derivative vectors and squared length 1 of v/mag whenever mag*mag = |v|^2 are proved for the models of vector_cross / vector_normalize; the floating-point sqrt and the 18-decimals rounding of vector_normalize are outside (checked in the oracle to 1e-12)",
+    "proved (rational tangent / normal, what the ops tanc 1 / tans 1 / nrms 1 run: default evaluator as coded on the homogeneous net, A4.2 / A4.4, entries [0], [1] / [0][0], [1][0], [0][1]; span search, closed domain, positive weights): curve (rational_tangent_is_quotient_rule): point = A/w, vector = (A' w - A w')/w^2 with Mathlib's Polynomial.derivative, w(u) > 0; surface (tangent_rational_surface_on_domain, rational_surface_tangent_is_quotient_rule): W S = A, W S_u + W_u S = A_u, W S_v + W_v S = A_v and the quotient-rule forms with the partial derivatives in F[X][Y]; normal of a rational 3-D surface (normal_rational_surface_on_domain): the call succeeds and returns the cross product of these two rational tangent vectors, orthogonal to both; the quotient-rule values are the unique solution of the first two Leibniz equations and equal the derivative of the quotient polynomial whenever w divides A; over the reals (Mathlib HasDerivAt): x -> A(x)/w(x) has the value and derivative operations.tangent returns (rational_tangent_is_derivative_of_quotient_real), and S_u, S_v are the derivatives of the partial functions x -> A(x,v)/W(x,v), y -> A(u,y)/W(u,y) (rational_surface_tangents_are_partial_derivatives_of_quotient_real)",
+    "proved (normalize=True; models tangentCurveN / tangentSurfaceN / normalSurfaceN = the un-normalised result followed by the model of vector_normalize, the magnitudes vector_magnitude returned being INPUTS; driver ops tancn / tansn / nrmsn compared with operations.tangent / normal(normalize=True) on unit-scale and small-scale (2^-10 .. 2^-26) shapes, rational and not, single and list calls, and on shapes with a vanishing tangent / normal (repeated first control point, pole)): for an EXACT root m (m*m = |v|^2): m > 0 -> the result exists, has squared length exactly 1 and is (1/m) v with 1/m > 0 (normalized_vector_is_unit_positive_multiple); m >= 0 -> the call is refused (ValueError, driver ERR) exactly for the zero vector (normalize_refuses_exactly_the_zero_vector); the three ops return the un-normalised point and these vectors, and are refused exactly when the first derivative / one of the two partials / the cross product vanishes (tangent_curve_normalized, tangent_surface_normalized, normal_surface_normalized and the ..._refused_iff_... theorems, for ANY derivative table); end to end for rational shapes: m n solves the Leibniz equation(s) of the true first derivative(s), the normalised normal is orthogonal to both rational tangents (normalized_tangent_rational_curve_on_domain, normalized_tangent_rational_surface_on_domain, normalized_normal_rational_surface_on_domain)",
+    "not proved: derivatives of order >= 2 of the quotient A/w are stated through the Leibniz system and its uniqueness only (the quotient-rule / HasDerivAt forms are for order 1, i.e. tangent and normal); the magnitude the implementation uses is the DOUBLE math.sqrt returns, which satisfies m*m = |v|^2 only up to rounding: with it the result is (1/m) v exactly (model = code, compared in exact arithmetic) but its squared length is 1 only up to that rounding (the driver ops answer BADMAG unless |m*m - |v|^2| <= 2^-49 |v|^2, the oracle checks the same bound); a vector so small that |v|^2 underflows in floating point is outside (exact mode has no underflow); A3.6 and A3.8 agree only on k + l <= order (the rest of the A3.8 table is zero)",
+    "tangent / normal: the floating-point sqrt and the 18-decimals rounding of vector_normalize are outside the theorems (the rounding is the identity on exact numbers; the oracle checks parallelism exactly and the length to relative 2^-49)",
 ]
 
 
@@ -30,6 +32,97 @@ def _shrink(rng, d):
     e['P'] = [[x * f if i < dim else x for i, x in enumerate(pt)] for pt in d['P']]
     G.count('tangent-scale', 'small')
     return e
+
+
+def _mag(vec):
+    """(the double linalg.vector_magnitude returns for the exact vector, exact squared length): the model of
+    vector_normalize takes the square root as an input (core.impl_sqrt: what the implementation computed, checked to be
+    the root up to rounding; the vector itself comes from the exact jets, not from the implementation)"""
+    import core
+    from geomdl import linalg
+    ssq = sum((x * x for x in vec), F(0))
+    return core.impl_sqrt(ssq, lambda: linalg.vector_magnitude(qs(vec))), ssq
+
+
+def _cross3(a, b):
+    a3, b3 = (list(a) + [F(0)])[:3], (list(b) + [F(0)])[:3]
+    return [a3[1] * b3[2] - a3[2] * b3[1], a3[2] * b3[0] - a3[0] * b3[2], a3[0] * b3[1] - a3[1] * b3[0]]
+
+
+def _degenerate_curve(rng, d):
+    """the first two control points coincide (weights kept): on a clamped knot vector the tangent at the start vanishes"""
+    dim = d['dim']
+    P = [list(pt) for pt in d['P']]
+    if d['rat']:
+        w0, w1 = P[0][dim], P[1][dim]
+        P[1] = [P[0][i] / w0 * w1 for i in range(dim)] + [w1]
+    else:
+        P[1] = list(P[0])
+    e = dict(d); e['P'] = P
+    return e
+
+
+def _pole_surface(rng, d):
+    """the first u-row of the net collapses to one point (a pole; weights kept): S_v = 0 along the edge u = start"""
+    dim, sv = d['dim'], d['sv']
+    P = [list(pt) for pt in d['P']]
+    for b in range(1, sv):
+        if d['rat']:
+            P[b] = [P[0][i] / P[0][dim] * P[b][dim] for i in range(dim)] + [P[b][dim]]
+        else:
+            P[b] = list(P[0])
+    e = dict(d); e['P'] = P
+    return e
+
+
+def _norm_cases(rng, tier):
+    """normalize=True variants (models tangentCurveN / tangentSurfaceN / normalSurfaceN; driver ops tancn / tansn /
+    nrmsn): unit-scale and small-scale shapes, rational and not, single and list calls, and shapes with a vanishing
+    tangent / normal (repeated first control point, pole) where vector_normalize raises"""
+    out = []
+    for _ in range(70 if tier == 'quick' else 900):
+        aslist = rng.random() < .35
+        m = rng.randint(2, 3) if aslist else 1
+        zero = rng.random() < .12
+        if rng.random() < .4:
+            d = S.rand_curve(rng, maxp=4, clamped=True if zero else rng.random() < .9)
+            us = [S.rand_params(rng, d)[0] for _ in range(m)]
+            if zero:
+                d = _degenerate_curve(rng, d)
+                us[rng.randrange(m)] = d['kv'][d['p']]
+            d = _shrink(rng, d)
+            mags = [_mag(J.curve_ders(d, u, 1)[1]) for u in us]
+            G.count('tangent-normalized', 'curve' + ('-rat' if d['rat'] else '') + ('-list' if aslist else ''))
+            G.count('normalize-sqrt', 'zero' if any(x[1] == 0 for x in mags) else
+                    ('exact' if all(x[0] * x[0] == x[1] for x in mags) else 'rounded'))
+            out.append(Case('tancn', "tancn %s %s %s" % (S.args(d), show_list(us), show_list([x[0] for x in mags])),
+                            dict(shape=d, us=us, aslist=aslist)))
+        else:
+            d = S.rand_surface(rng, maxp=3, max_interior=2, dim=rng.choice([3, 3, 2]), clamped=True if zero else rng.random() < .9)
+            ps = [S.rand_params(rng, d) for _ in range(m)]
+            if zero:
+                d = _pole_surface(rng, d)
+                k = rng.randrange(m)
+                ps[k] = [d['kvu'][d['pu']], ps[k][1]]
+            d = _shrink(rng, d)
+            us, vs = [x[0] for x in ps], [x[1] for x in ps]
+            kind = rng.choice(['tansn', 'nrmsn'])
+            jets = [J.surface_ders(d, u, v, 1) for u, v in ps]
+            G.count('tangent-normalized', kind + ('-rat' if d['rat'] else '') + ('-list' if aslist else ''))
+            if kind == 'tansn':
+                mu = [_mag(ex[1][0]) for ex in jets]
+                mv = [_mag(ex[0][1]) for ex in jets]
+                G.count('normalize-sqrt', 'zero' if any(x[1] == 0 for x in mu + mv) else
+                        ('exact' if all(x[0] * x[0] == x[1] for x in mu + mv) else 'rounded'))
+                line = "tansn %s %s %s %s %s" % (S.args(d), show_list(us), show_list(vs), show_list([x[0] for x in mu]),
+                                                 show_list([x[0] for x in mv]))
+            else:
+                mn = [_mag(_cross3(ex[1][0], ex[0][1])) for ex in jets]
+                G.count('normalize-sqrt', 'zero' if any(x[1] == 0 for x in mn) else
+                        ('exact' if all(x[0] * x[0] == x[1] for x in mn) else 'rounded'))
+                line = "nrmsn %s %s %s %s" % (S.args(d), show_list(us), show_list(vs), show_list([x[0] for x in mn]))
+            out.append(Case(kind, line, dict(shape=d, us=us, vs=vs, aslist=aslist)))
+    return out
 
 
 def gen(rng, tier):
@@ -141,6 +234,7 @@ def gen(rng, tier):
             kind = rng.choice(['tans', 'nrms'])
             G.count('tangent', kind + ('-list' if aslist else ''))
             out.append(Case(kind, "%s %s %s %s" % (kind, S.args(d), show_list(us), show_list(vs)), dict(shape=d, us=us, vs=vs, aslist=aslist)))
+    out.extend(_norm_cases(rng, tier))
     return out
 
 
@@ -166,6 +260,17 @@ def impl(c):
         du, dv = min(d['pu'], order), min(d['pv'], order)
         return show_pts2([[pkl[k][l][i][j] for i in range(r2 - r1 - k + 1) for j in range(s2 - s1 - l + 1)]
                           for k in range(du + 1) for l in range(min(order - k, dv) + 1)])
+    if c.kind in ('tancn', 'tansn', 'nrmsn'):
+        from geomdl import operations
+        o = S.build(c.data['shape'])
+        if c.kind == 'tancn':
+            us = [q(x) for x in c.data['us']]
+            res = operations.tangent(o, us, normalize=True) if c.data['aslist'] else (operations.tangent(o, us[0], normalize=True),)
+        else:
+            ps = [(q(a), q(b)) for a, b in zip(c.data['us'], c.data['vs'])]
+            f = operations.tangent if c.kind == 'tansn' else operations.normal
+            res = f(o, ps, normalize=True) if c.data['aslist'] else (f(o, ps[0], normalize=True),)
+        return "|".join(";".join(show_list(list(x)) for x in r) for r in res)
     if c.kind in ('hodograph-curve', 'hodograph-surface', 'tanc', 'tans', 'nrms'):
         from geomdl import operations
         o = S.build(c.data['shape'])
@@ -297,6 +402,8 @@ def oracle(c):
     o = S.build(d)
     if c.kind in ('tanc', 'tans', 'nrms', 'sdcpts37'):
         return _oracle_tn(c, d, o)
+    if c.kind in ('tancn', 'tansn', 'nrmsn'):
+        return _oracle_norm(c, d, o)
     if c.kind == 'hodograph-curve':
         u = c.data['u']
         h = operations.derivative_curve(o)
@@ -426,6 +533,66 @@ def _oracle_tn(c, d, o):
                 if list(r[1]) != cross:
                     return "operations.normal at (%s,%s) is not the cross product of the exact partial derivatives" % (fr(u), fr(v))
         return None
+    return None
+
+
+def _unit_multiple(n, t):
+    """None if `n` is `t / m` for ONE number m > 0 with m*m = |t|^2 up to the rounding of a double square root
+    (relative 2^-49 on the square), else a sentence"""
+    n = [x.q if hasattr(x, 'q') else F(x) for x in n]
+    if len(n) != len(t):
+        return "has %d coordinates instead of %d" % (len(n), len(t))
+    ssq = sum((x * x for x in t), F(0))
+    k = max(range(len(t)), key=lambda i: abs(t[i]))
+    if n[k] == 0:
+        return "is zero in the dominant coordinate of the exact vector"
+    m = t[k] / n[k]
+    if m <= 0:
+        return "points against the exact vector"
+    if any(x * m != y for x, y in zip(n, t)):
+        return "is not parallel to the exact vector"
+    if abs(m * m - ssq) > ssq * F(1, 2 ** 49):
+        return "has squared length %s, not 1 up to rounding" % fr(ssq / (m * m))
+    return None
+
+
+def _oracle_norm(c, d, o):
+    """normalize=True: the point is the exact point, every returned vector is the exact first derivative (cross product
+    of the exact partials) divided by one positive number that is its length up to rounding; a vanishing vector must be
+    refused (ValueError of vector_normalize) - single and list calls"""
+    from geomdl import operations
+    if c.kind == 'tancn':
+        prm = [q(x) for x in c.data['us']]
+        exs = [J.curve_ders(d, u, 1) for u in c.data['us']]
+        want = [(ex[0], [ex[1]]) for ex in exs]
+        f, name = operations.tangent, 'tangent(curve'
+    else:
+        prm = [(q(a), q(b)) for a, b in zip(c.data['us'], c.data['vs'])]
+        exs = [J.surface_ders(d, u, v, 1) for u, v in zip(c.data['us'], c.data['vs'])]
+        if c.kind == 'tansn':
+            want = [(ex[0][0], [ex[1][0], ex[0][1]]) for ex in exs]
+            f, name = operations.tangent, 'tangent(surface'
+        else:
+            want = [(ex[0][0], [_cross3(ex[1][0], ex[0][1])]) for ex in exs]
+            f, name = operations.normal, 'normal(surface'
+    vanishing = any(all(x == 0 for x in t) for _, ts in want for t in ts)
+    try:
+        res = f(o, prm, normalize=True) if c.data['aslist'] else (f(o, prm[0], normalize=True),)
+    except ValueError:
+        return None if vanishing else "operations.%s, .., normalize=True) raised ValueError although no vector to normalise vanishes" % name
+    if vanishing:
+        return "operations.%s, .., normalize=True) returned a result although a vector to normalise is zero" % name
+    if len(res) != len(want):
+        return "operations.%s, .., normalize=True) returned %d results for %d parameters" % (name, len(res), len(want))
+    for k_, (r, (pt, ts)) in enumerate(zip(res, want)):
+        if list(r[0]) != pt:
+            return "operations.%s, .., normalize=True) entry %d: first entry is not the exact point" % (name, k_)
+        if len(r) != 1 + len(ts):
+            return "operations.%s, .., normalize=True) entry %d has %d components" % (name, k_, len(r))
+        for n, t in zip(r[1:], ts):
+            why = _unit_multiple(list(n), t)
+            if why:
+                return "operations.%s, .., normalize=True) entry %d: a normalised vector %s" % (name, k_, why)
     return None
 
 
